@@ -322,12 +322,19 @@ def _term_of(o):
 
 
 def _sh(f, *vs):
+    """shadow arithmetic; a shadow that overflows / leaves the domain becomes None (unknown): branching on it
+    later raises SymbolicBranchError instead of taking an arbitrary side"""
     if any(v is None for v in vs):
         return None
     try:
-        return f(*vs)
-    except (ZeroDivisionError, ValueError, OverflowError):
-        return float("nan")
+        r = f(*vs)
+    except (ZeroDivisionError, ValueError, OverflowError, TypeError):
+        return None
+    if isinstance(r, float) and not math.isfinite(r):
+        return None
+    if isinstance(r, complex):
+        return None
+    return r
 
 
 class SReal:
@@ -364,9 +371,8 @@ class SReal:
             vo = _shadow_of(o)
         except TypeError:
             return NotImplemented
-        if isinstance(vo, float) and not math.isfinite(vo):
-            # +-inf operands are not representable; keep them concrete through the shadow only
-            raise SymbolicBranchError("infinite operand in symbolic arithmetic")
+        if not isinstance(o, SReal) and isinstance(vo, float) and not math.isfinite(vo):
+            raise SymbolicBranchError("infinite concrete operand in symbolic arithmetic")
         if swap:
             return SReal(ft(to, self.t), _sh(fv, vo, self.v))
         return SReal(ft(self.t, to), _sh(fv, self.v, vo))
